@@ -22,6 +22,7 @@
   claimed; their unlocked accesses are listed by `enumerations_unlocked_known`, not judged).
 -/
 import Golib.Gen.Locks
+import Golib.Conc.Deadlock
 
 namespace C10Gen
 open LockFacts Gen.Locks
@@ -118,6 +119,31 @@ theorem no_write_under_read_lock :
     would deadlock on lock order, `m.PutAll(m)` on the lock itself) -/
 theorem no_cross_instance_lock_order :
     all.all (fun T => (crossInstanceLockers T).isEmpty) = true := by decide
+
+/-! ### the table checks as premises of proved implications (Golib/Conc/Deadlock.lean)
+
+  `runs T n held m` interprets the regenerated call graph: it executes method `m` to call depth `n`
+  (every recorded call site, the lock released when the acquiring method returns — which is what the
+  `Lock(); defer Unlock()` pattern checked by the same judgement guarantees) and answers whether the
+  execution ever tries to take the non re-entrant instance lock while holding it.  `nests` does the
+  same for two instances of one type and answers whether the thread ever holds/requests both locks.
+  `noSelfDeadlock_sound` and `nestFree_sound` are proved once, for every table. -/
+
+theorem all_no_self_deadlock : all.all noSelfDeadlock = true := by decide
+
+theorem all_nest_free : all.all nestFree = true := by decide
+
+/-- **deadlock freedom of the abstract call-graph machine, for the code as it stands**: for every
+    collection type, every method called from outside (lock not held), to every call depth, never
+    re-acquires the lock it holds -/
+theorem deadlock_free (T : TypeFacts) (hT : T ∈ all) (n : Nat) (m : String) : runs T n false m = true :=
+  noSelfDeadlock_sound T (List.all_eq_true.1 all_no_self_deadlock T hT) n m
+
+/-- … and never holds or requests the locks of two instances at once, so no two threads can wait for
+    each other on instance locks (`no_cycle_without_nesting`) -/
+theorem no_instance_lock_nesting (T : TypeFacts) (hT : T ∈ all) (n : Nat) (m : String) :
+    nests T n false false m = false :=
+  nestFree_sound T (List.all_eq_true.1 all_nest_free T hT) n m
 
 /-- what remains unlocked is confined to enumerator constructors / serializers (outside the
     property's quantifier over point operations; noted, not judged) -/
